@@ -6,6 +6,8 @@ import Vegeta.Model.LTTB
 import Vegeta.Model.Plot
 import Vegeta.Proofs.PlotOrder
 import Vegeta.Proofs.PlotSort
+import Vegeta.Proofs.Buckets
+import Vegeta.Proofs.PlotWF
 namespace Vegeta.Props.C17
 open Vegeta.Go Vegeta.Model.LTTB Vegeta.Model.Plot
 open Vegeta.Proofs.PlotOrder (Canon specSeries specPts t0 prevOf)
@@ -125,20 +127,15 @@ theorem aux_getLast_append_ne (xs ys : List Point) (h : ys ≠ []) :
     | some z => simp [List.getLast?_append, hq]
 
 /--
-**Full statement (property text):** "A series longer than the threshold is reduced to exactly
-threshold points that form a subsequence of the original and include its first and last
-points" — for all `3 ≤ threshold < count`.
-
-**Proved here (`_partial`):** exactly that conclusion, and absence of a panic or error, for
-every series `pts` of `count` points with arbitrary float values, *under the hypothesis*
-`bucketsOK count threshold = true`: the decidable statement, evaluated with the same
-bit-exact float arithmetic as the code, that the first fetch asks for ≥ 2 points and every
-bucket fetch returns ≥ 1 point.  The hypothesis depends on `count` and `threshold` only.
-It is discharged by kernel computation for the pairs listed in `buckets_ok_table` below
-and unconditionally for all pairs by `buckets_ok_general` when that theorem is present;
-the harness evaluates it through the driver (`c17.bucketsok`) for every other pair it runs.
+The sampled case under an explicit bucket hypothesis (no bound on `count`): for every series
+`pts` of `count` points with arbitrary float values and `3 ≤ threshold < count`, if
+`bucketsOK count threshold` — the decidable statement, evaluated with the same bit-exact float
+arithmetic as the code, that the first fetch asks for ≥ 2 points and every bucket fetch returns
+≥ 1 point — then `Downsample` neither panics nor fails and returns exactly `threshold` points
+forming a subsequence of the input that starts with its first and ends with its last point.
+`buckets_ok` discharges the hypothesis for every `count ≤ 2^50`; see `downsample_exact`.
 -/
-theorem downsample_exact_partial (count threshold : Int) (pts : List Point)
+theorem downsample_exact_of_bucketsOK (count threshold : Int) (pts : List Point)
     (hlen : (pts.length : Int) = count) (h3 : 3 ≤ threshold) (hlt : threshold < count)
     (hok : bucketsOK count threshold = true) :
     ∃ out, downsample count threshold pts = .ok out ∧ (out.length : Int) = threshold ∧
@@ -237,32 +234,58 @@ theorem downsample_exact_partial (count threshold : Int) (pts : List Point)
       have h2 : (p0 :: (pre ++ (cur' ++ rem'))) = (p0 :: pre) ++ (cur' ++ rem') := by simp
       rw [h2, aux_getLast_append_ne _ _ hcrne, hl']
 
-/-- The bucket hypothesis, checked by kernel evaluation of the float arithmetic for every
-pair `3 ≤ threshold < count ≤ 12`. -/
+/-- **The bucket arithmetic never produces an empty bucket**: for every pair
+`3 ≤ threshold < count ≤ 2^50`, computing `size = float64(count-2)/float64(threshold-2)`,
+`int(1+size)` and `int(float64(i)*size)` in IEEE-754 binary64 (round to nearest even, as the
+code does), the first fetch asks for at least 2 points, every `hi − lo` is at least 1, and at
+least one point is left for every bucket fetch.  (Proof: `Vegeta.Proofs.Rounding` characterises
+`int(fl(x))` as `⌊x + 2^-(K+1)⌋` with `K` the scaling exponent of `x`; consecutive products
+`float64(j)·size` differ by `size ≥ 1`, and the half-unit added by the rounding is not smaller
+for the larger product; `1 + size` is not rounded up to an integer and `(threshold−2)·size`
+stays below `count − 1` because the quotient is within half a unit in the last place.) -/
+theorem buckets_ok (count threshold : Int) (h3 : 3 ≤ threshold) (hlt : threshold < count)
+    (hc : count ≤ 1125899906842624) : bucketsOK count threshold = true :=
+  Vegeta.Proofs.Buckets.bucketsOK_general count threshold h3 hlt hc
+
+/--
+"A series longer than the threshold is reduced to exactly threshold points that form a
+subsequence of the original and include its first and last points": for every series `pts` of
+`count` points with arbitrary float values (NaN, ±Inf, equal x, … included) and every
+`3 ≤ threshold < count`, `Downsample` does not panic, returns no error, and its output has
+exactly `threshold` points, is a sublist of `pts`, starts with the first and ends with the last
+point of `pts`.
+
+Bound: `count ≤ 2^50 = 1 125 899 906 842 624` points (16 PiB of points; beyond that the float
+quotient `size` loses the two guard bits the rounding argument uses — there
+`downsample_exact_of_bucketsOK` still applies to every pair whose bucket condition holds).
+-/
+theorem downsample_exact (count threshold : Int) (pts : List Point)
+    (hlen : (pts.length : Int) = count) (h3 : 3 ≤ threshold) (hlt : threshold < count)
+    (hc : count ≤ 1125899906842624) :
+    ∃ out, downsample count threshold pts = .ok out ∧ (out.length : Int) = threshold ∧
+      out.Sublist pts ∧ out.head? = pts.head? ∧ out.getLast? = pts.getLast? :=
+  downsample_exact_of_bucketsOK count threshold pts hlen h3 hlt (buckets_ok count threshold h3 hlt hc)
+
+/-- "never panics" spelled out -/
+theorem downsample_never_panics (count threshold : Int) (pts : List Point)
+    (hlen : (pts.length : Int) = count) (h0 : 0 ≤ threshold) (hc : count ≤ 1125899906842624) :
+    downsample count threshold pts ≠ .panic := by
+  by_cases h1 : threshold ≥ count ∨ threshold = 0
+  · rw [downsample_identity count threshold pts hlen h1]; intro h; cases h
+  · by_cases h2 : threshold < 3
+    · rw [downsample_rejects_1_2 count threshold pts (by omega) (by omega)]; intro h; cases h
+    · obtain ⟨out, h, _⟩ := downsample_exact count threshold pts hlen (by omega) (by omega) hc
+      rw [h]; intro h'; cases h'
+
+/-! non-vacuity / cross-check of the general theorem against kernel evaluation of the floats -/
 def bucketsTable (lo hi : Nat) : Bool :=
   (List.range' lo (hi - lo)).all fun c => (List.range' 3 (c - 3)).all fun t => bucketsOK (c : Int) (t : Int)
 
 set_option maxRecDepth 100000 in
-theorem aux_table_4_13 : bucketsTable 4 13 = true := by decide +kernel
-
-theorem aux_table_use (lo hi : Nat) (h : bucketsTable lo hi = true) (c t : Nat)
-    (h3 : 3 ≤ t) (htc : t < c) (hlo : lo ≤ c) (hhi : c < hi) : bucketsOK (c : Int) (t : Int) = true := by
-  unfold bucketsTable at h
-  rw [List.all_eq_true] at h
-  have hc := h c (by rw [List.mem_range'_1]; omega)
-  rw [List.all_eq_true] at hc
-  exact hc t (by rw [List.mem_range'_1]; omega)
-
-theorem buckets_ok_table (count threshold : Int) (h3 : 3 ≤ threshold) (hlt : threshold < count)
-    (hc : count ≤ 12) : bucketsOK count threshold = true := by
-  have := aux_table_use 4 13 aux_table_4_13 count.toNat threshold.toNat (by omega) (by omega) (by omega) (by omega)
-  have e1 : ((count.toNat : Nat) : Int) = count := by omega
-  have e2 : ((threshold.toNat : Nat) : Int) = threshold := by omega
-  rw [e1, e2] at this
-  exact this
-
-/-! non-vacuity -/
+example : bucketsTable 4 10 = true := by decide +kernel
 example : bucketsOK 64 33 = true := by decide +kernel
+example : downsample 5 3 [⟨⟨0⟩, ⟨0⟩⟩, ⟨F64.ofNat 1, F64.ofNat 5⟩, ⟨F64.ofNat 2, F64.ofNat 1⟩, ⟨F64.ofNat 3, F64.ofNat 9⟩, ⟨F64.ofNat 4, F64.ofNat 2⟩]
+    = .ok [⟨⟨0⟩, ⟨0⟩⟩, ⟨F64.ofNat 3, F64.ofNat 9⟩, ⟨F64.ofNat 4, F64.ofNat 2⟩] := by decide +kernel
 
 /-! ## labeledSeries.add / Plot.Add: the arrival order is irrelevant -/
 
@@ -426,6 +449,54 @@ theorem rows_are_the_series_points (store : Store) (p : Plot) (threshold : Int)
     exact ⟨Vegeta.Proofs.PlotSort.sortBy_perm rowLt raw, rfl⟩
   · cases h
   · cases h
+
+/-- "split into per-attack OK and ERROR series": after any sequence of successful `Add`s the
+series handed to `Plot.data` are exactly the series found under an attack name and a label (no
+series is shown twice or dropped), and they come in `attack+label` order. -/
+theorem series_shown_are_the_label_series (rs : List Result) (p : Plot)
+    (h : Plot.addAll [] rs = .ok p) :
+    (∀ s, s ∈ allSeries p ↔ ∃ a l, seriesOf p a l = some s) ∧
+    (allSeries p).Pairwise (fun a b => bytesLt (seriesKey b) (seriesKey a) = false) :=
+  ⟨fun s => Vegeta.Proofs.PlotWF.allSeries_mem p
+      (Vegeta.Proofs.PlotWF.addAll_wf rs [] p Vegeta.Proofs.PlotWF.empty_wf h) s,
+   Vegeta.Proofs.PlotWF.allSeries_sorted p⟩
+
+/-- With threshold 0 (no down-sampling) `Plot.data` never fails, whatever the store returns. -/
+theorem data_threshold_zero_ok (store : Store) (p : Plot) :
+    ∃ rows labels, Plot.data store p 0 = .ok (rows, labels) := by
+  have key : ∀ (ss : List TimeSeries) (n i : Nat), ∃ rows, rowsFrom store 0 n i ss = .ok rows := by
+    intro ss n
+    induction ss with
+    | nil => intro i; exact ⟨[], rfl⟩
+    | cons s rest ih =>
+      intro i
+      obtain ⟨rs, hrs⟩ := ih (i+1)
+      unfold rowsFrom
+      have hd : ∃ ps, downsample (s.pts.length : Int) 0 (seriesPoints store s) = .ok ps := by
+        unfold downsample
+        rw [if_pos (Or.inr rfl)]
+        rw [aux_fetch _ _ (Int.natCast_nonneg _)]
+        exact ⟨_, rfl⟩
+      obtain ⟨ps, hps⟩ := hd
+      rw [hps, hrs]
+      exact ⟨_, rfl⟩
+  obtain ⟨rows, hrows⟩ := key (allSeries p) (allSeries p).length 0
+  unfold Plot.data
+  simp only [hrows]
+  exact ⟨_, _, rfl⟩
+
+/-- Inside the store's documented limits the iterator hands back the pushed points: the points
+`Plot.data` works on are the series' points with x converted from ms to seconds. -/
+theorem points_of_lossless_store (store : Store) (hl : Lossless store) (s : TimeSeries)
+    (hd : tszDomain (s.pts.map (·.1)) = true) :
+    seriesPoints store s = s.pts.map (fun (t, v) => ⟨msToSeconds t, v⟩) := by
+  unfold seriesPoints; rw [hl s.pts hd]
+
+example : Lossless (id : Store) := fun _ _ => rfl
+example : tszDomain [0, 0, 5, 10, 4000000] = true := by decide
+/-- where the assumption stops: a series whose first point lies 38 h after the attack's first
+request (136 800 000 ms ≥ 2^27 − 1) is outside the store's limits — the real plot misplaces it. -/
+example : tszDomain [136800000, 136801000] = false := by decide
 
 /-! non-vacuity: two attacks, results arriving out of order -/
 def exA : Bytes := [97]
